@@ -24,14 +24,22 @@
 (*   StopOps     FALSE = allocate / delete inside a stop window are withheld *)
 (*               (open finding: stopped collector neither registers nor     *)
 (*               deletes); TRUE lets TLC exhibit the defect                 *)
+(*   Spawners    objects of kind "spawner" exist: their finaliser allocates *)
+(*               a fresh managed object (alloc_by -> GC_Set in the middle   *)
+(*               of phase 2, or during teardown)                            *)
+(*   NestedSweep FALSE = GC_Set does not start a collection while a sweep   *)
+(*               is going through its pending list (fix: f5b06e1); TRUE =   *)
+(*               as found: the nested sweep takes the pending list over     *)
+(*   TeardownLoop TRUE = GC_Del sweeps until nothing collectable is left;   *)
+(*               FALSE = as found: one sweep                                *)
 (***************************************************************************)
 EXTENDS Integers, FiniteSets, Sequences, TLC, Json
 
-CONSTANTS Obj, MaxSteps, TlsRecurse, SweepCoop, StopOps,
+CONSTANTS Obj, MaxSteps, TlsRecurse, SweepCoop, StopOps, Spawners, NestedSweep, TeardownLoop,
           Emit, ClearOnProcess   \* phase 2 clears a pending entry before finalising it (needed once SweepCoop is on)
 
 VARIABLES st,        \* st[o] \in {"free", "live", "final"}
-          kind,      \* "plain" (struct / Ref / container) | "box"
+          kind,      \* "plain" (struct / Ref / container) | "box" | "spawner" (its finaliser allocates)
           mode,      \* "std" | "root" | "raw"
           fld,       \* fld[o] \subseteq Obj : pointer fields / elements
           owned,     \* objects owned through a Box
@@ -75,6 +83,11 @@ Finalise(x, R, P, F, S) ==
           IN IF v \in R /\ S1[v] = "live" THEN Finalise(v, R \ {v}, P1, F1, S1)        \* registered: removed and finalised
              ELSE IF v \in P /\ SweepCoop THEN Finalise(v, R, P1, F1, S1)                  \* pending: finalised now
              ELSE <<R, P1, F1, S1>>                           \* unknown to the registry: silently ignored
+     ELSE IF kind[x] = "spawner" /\ \E c \in Obj : S1[c] = "free" /\ F1[c] = 0
+     THEN LET c == CHOOSE c \in Obj : S1[c] = "free" /\ F1[c] = 0 /\ \A d \in Obj : (S1[d] = "free" /\ F1[d] = 0) => c <= d IN
+          \* the finaliser allocates c: registered at once (never on the mutator's stack: garbage from the start);
+          \* as found, crossing the threshold here started a nested sweep that took the pending list over
+          <<R \cup {c}, IF NestedSweep THEN {} ELSE P, F1, [S1 EXCEPT ![c] = "live"]>>
      ELSE <<R, P, F1, S1>>
 
 (* phase 2 of GC_Sweep: the pending list in the given order *)
@@ -104,6 +117,16 @@ New(o, md) ==
   /\ fld' = [fld EXCEPT ![o] = {}] /\ stack' = stack \cup {o}
   /\ IF md # "raw" /\ running THEN reg' = reg \cup {o} /\ rootf' = [rootf EXCEPT ![o] = (md = "root")]
      ELSE UNCHANGED <<reg, rootf>>                                 \* GC_Set returns at once when stopped
+  /\ UNCHANGED <<owned, tls, fin, asked, running, down, swept>>
+
+(* an object whose finaliser allocates *)
+NewSpawner(o) ==
+  /\ Spawners /\ ~down /\ st[o] = "free" /\ fin[o] = 0 /\ running
+  /\ \A p \in Obj : p < o => st[p] # "free" \/ fin[p] > 0
+  /\ Tick([op |-> "newspawner", o |-> o])
+  /\ st' = [st EXCEPT ![o] = "live"] /\ kind' = [kind EXCEPT ![o] = "spawner"] /\ mode' = [mode EXCEPT ![o] = "std"]
+  /\ fld' = [fld EXCEPT ![o] = {}] /\ stack' = stack \cup {o}
+  /\ reg' = reg \cup {o} /\ rootf' = [rootf EXCEPT ![o] = FALSE]
   /\ UNCHANGED <<owned, tls, fin, asked, running, down, swept>>
 
 (* new(Box, p): the Box owns p from now on *)
@@ -158,18 +181,27 @@ Start == ~down /\ ~running /\ Tick([op |-> "start"]) /\ running' = TRUE
          /\ UNCHANGED <<st, kind, mode, fld, owned, stack, tls, reg, rootf, fin, asked, down, swept>>
 
 (* thread / program exit: GC_Del sweeps with nothing marked *)
+RECURSIVE TearMore(_, _, _)
+TearMore(R, F, S) ==                       \* further passes of GC_Del: whatever the finalisers of the last pass allocated
+  LET dead == {o \in R : ~rootf[o]} IN
+  IF dead = {} \/ ~TeardownLoop THEN <<R, F, S>>
+  ELSE LET order == CHOOSE f \in Perms(dead) : TRUE
+           r == Phase2([i \in 1..Cardinality(dead) |-> order[i]], R \ dead, dead, F, S) IN
+       TearMore(r[1], r[2], r[3])
 Teardown ==
   /\ ~down /\ act' = [op |-> "teardown"] /\ steps' = steps
   /\ LET dead == {o \in reg : ~rootf[o]} IN
      \E order \in Perms(dead) :
-       LET r == Phase2([i \in 1..Cardinality(dead) |-> order[i]], reg \ dead, dead, fin, st) IN
-       reg' = r[1] /\ fin' = r[2] /\ st' = r[3]
+       LET r == Phase2([i \in 1..Cardinality(dead) |-> order[i]], reg \ dead, dead, fin, st)
+           t == TearMore(r[1], r[2], r[3]) IN
+       reg' = t[1] /\ fin' = t[2] /\ st' = t[3]
   /\ down' = TRUE /\ swept' = {}
   /\ stack' = stack \cap {o \in Obj : st'[o] = "live"} /\ tls' = tls \cap {o \in Obj : st'[o] = "live"}
   /\ UNCHANGED <<kind, mode, fld, owned, rootf, asked, running>>
 
 Next == \/ \E o \in Obj, md \in {"std", "root", "raw"} : New(o, md)
         \/ \E b, p \in Obj : NewBox(b, p, "std")
+        \/ \E o \in Obj : NewSpawner(o)
         \/ \E o, p \in Obj : Store(o, p)
         \/ \E o \in Obj : Drop(o) \/ SetTls(o) \/ Del(o)
         \/ Collect \/ Stop \/ Start \/ Teardown
